@@ -70,6 +70,11 @@ func (k Keeper) EndBlocker(ctx context.Context) ([]abci.ValidatorUpdate, error) 
 		}
 
 		curPower, valAddr := key.K1(), key.K2()
+		// a candidate without voting power can't join the validator set:
+		// CometBFT treats a zero-power update as a removal
+		if curPower == 0 {
+			break
+		}
 		if curPower > lastPower && count != 0 {
 			return nil, errors.New("invalid iterator: validator power is bigger than before")
 		}
